@@ -137,18 +137,46 @@ impl<'a> Session<'a> {
         self.out.emit(&e);
     }
 
-    /// record engine output until the bestmove arrives (or the watchdog expires / the channel closes)
+    /// record engine output until the bestmove arrives (or the watchdog expires / the channel closes).
+    /// `stop` is sent once `stop_after` has elapsed, whether or not output keeps flowing; a search that floods
+    /// output (e.g. `go infinite` on a forced mate iterates thousands of depths per second) is logged up to a
+    /// cap and then only counted.
     fn drain_until_bestmove(&mut self, stop_after: Option<Duration>) {
+        const MAX_LOGGED: usize = 3000;
         let started = Instant::now();
         let mut stop_sent = stop_after.is_none();
+        let mut logged = 0usize;
+        let mut skipped = 0u64;
+        let mut last_msg = Instant::now();
         loop {
-            let wait = if stop_sent { WATCHDOG } else { stop_after.unwrap().saturating_sub(started.elapsed()) };
+            if !stop_sent && started.elapsed() >= stop_after.unwrap() {
+                stop_sent = true;
+                self.emit_in("stop", json!({}));
+                self.engine.accept(UciCommand::Stop);
+            }
+            if logged >= MAX_LOGGED && !stop_sent {
+                // nothing more to learn from this search: end it
+                stop_sent = true;
+                self.emit_in("stop", json!({}));
+                self.engine.accept(UciCommand::Stop);
+            }
+            let wait = if stop_sent { WATCHDOG.saturating_sub(last_msg.elapsed()).max(Duration::from_millis(1)) }
+                       else { stop_after.unwrap().saturating_sub(started.elapsed()).max(Duration::from_micros(200)) };
             match self.rx.recv_timeout(wait) {
                 Ok(UciTxCommand::Info { info }) => {
-                    let m = info_json(&info);
-                    self.out.emit(&json!({"c": self.id, "ev": "out", "m": m}));
+                    last_msg = Instant::now();
+                    if logged < MAX_LOGGED {
+                        logged += 1;
+                        let m = info_json(&info);
+                        self.out.emit(&json!({"c": self.id, "ev": "out", "m": m}));
+                    } else {
+                        skipped += 1;
+                    }
                 }
                 Ok(UciTxCommand::BestMove { best_move, ponder_move }) => {
+                    if skipped > 0 {
+                        self.out.emit(&json!({"c": self.id, "ev": "truncated", "skipped": skipped}));
+                    }
                     let m = bestmove_json(&best_move, &ponder_move);
                     self.out.emit(&json!({"c": self.id, "ev": "out", "m": m}));
                     return;
@@ -159,11 +187,7 @@ impl<'a> Session<'a> {
                     }
                 }
                 Err(std::sync::mpsc::RecvTimeoutError::Timeout) => {
-                    if !stop_sent {
-                        stop_sent = true;
-                        self.emit_in("stop", json!({}));
-                        self.engine.accept(UciCommand::Stop);
-                    } else {
+                    if stop_sent && last_msg.elapsed() >= WATCHDOG {
                         self.out.emit(&json!({"c": self.id, "ev": "timeout", "why": "no bestmove within 60 s"}));
                         self.dead = true;
                         return;
